@@ -8,7 +8,6 @@ Helper lemmas only; the property statements are in `Properties/C10.lean`.
 
 open Complex Matrix
 namespace Qib.Fermi
-open Qib.Pauli (natOfBits natOfBits_lt)
 
 /-! ### Gaussian rationals: no zero divisors, conjugation -/
 
@@ -497,9 +496,9 @@ theorem sum_multiIndices_replicate {M : Type*} [AddCommMonoid M] (n L : ℕ) (F 
         ∑ g : Fin n → Fin L, F (i :: List.ofFn fun a => (g a : ℕ)) := fun i _ => ih _
     rw [List.map_congr_left this, list_range_sum]
     rw [← Fintype.sum_prod_type']
-    refine (Fintype.sum_equiv (Equiv.piFinSucc n (Fin L)) _ _ ?_).symm
-    intro g
-    simp only [Equiv.piFinSucc_apply, List.ofFn_succ, Fin.tail]
+    refine Fintype.sum_equiv (Fin.consEquiv fun _ : Fin (n + 1) => Fin L) _ _ ?_
+    rintro ⟨a, g⟩
+    simp [Fin.consEquiv, List.ofFn_succ]
 
 theorem stringM_ofFn (L n : ℕ) (ds : Fin n → IFODesc) (js : Fin n → ℕ) :
     stringM L (List.ofFn ds) (List.ofFn js) = (List.ofFn fun a => ladderN L (ds a).otype (js a)).prod := by
@@ -517,7 +516,7 @@ theorem Term.mat_sum (L n : ℕ) (ds : Fin n → IFODesc) (kind : Fin n → Bool
   simp only [Term.mat, hs, sum_multiIndices_replicate, stringM_ofFn]
   apply Finset.sum_congr rfl
   intro g _
-  congr 2
+  congr 3
   funext a
   simp [ladderN, hkind a]
 
